@@ -12,8 +12,10 @@ From Coq Require Import List ZArith Bool.
 From SDC Require Import Tls.Model Tls.Proofs.
 Import ListNotations.
 
-(* a provider with a TLS container: every history, every subscription address, shared or own server, with or
-   without alternative host name *)
+(* a provider with a TLS container: every history, shared or own server, with or without alternative host name.
+   Every request input carries the fields that the PEER chooses ([peerf]: wsa:To of any scheme and netloc with or
+   without the path of the called service, wsa:ReplyTo, wsa:From, the Host header netloc, URLs in reference
+   parameters) and Subscribe carries peer-chosen NotifyTo / EndTo: all universally quantified here *)
 Theorem C19_provider_https_only : forall pc st ins,
   p_tls pc = true -> Forall (secure RP) (prun pc st ins).
 Proof. exact provider_https_only. Qed.
@@ -52,6 +54,12 @@ Theorem C19_consumer_enforced_partial : forall cc i ins,
   Forall (secure RC) (crun false cc (c_init i) ins).
 Proof. exact (fun cc i ins Hm Hc Hn => consumer_enforced_never_plain false cc i ins Hm Hc (or_intror Hn)). Qed.
 Print Assumptions C19_consumer_enforced_partial.
+
+(* the inputs with which a foreign, hand-built peer drives the real provider in stream 'foreign' are such a history *)
+Theorem C19_foreign_peer_secure : forall c,
+  p_tls (f_pc c) = true -> Forall (secure RP) (prun (f_pc c) [] (foreign_inputs c)).
+Proof. exact (fun c H => provider_https_only (f_pc c) [] (foreign_inputs c) H). Qed.
+Print Assumptions C19_foreign_peer_secure.
 
 (* the scenario runner that every check run compares with the real provider and consumer (start-up, any list of
    probe / GetMdib / operation / notification / Renew / GetStatus / Unsubscribe / Subscribe, either shutdown order,
@@ -93,11 +101,14 @@ Example C19_consumer_nonvacuous :
      Adv KNotifyTo RC (mkaddr Https HAlt); Adv KEndTo RC (mkaddr Https HAlt)].
 Proof. split; reflexivity. Qed.
 
-(* a TLS provider is given http NotifyTo / EndTo addresses and a plaintext sink: it connects with its client
-   context, gets an SSL error and sends nothing *)
+(* a TLS provider gets a Subscribe whose wsa:To / ReplyTo / From / Host / reference parameter all name http
+   addresses of another netloc, http NotifyTo / EndTo addresses and a plaintext sink: the manager address stays
+   https on its own netloc, it connects with its client context, gets an SSL error and sends nothing *)
 Example C19_provider_nonvacuous :
   let pc := mkpconf true Own true in
-  prun pc [] [PStart; PSubscribe (mkaddr Http HIp) (Some (mkaddr Http HIp)); PNotify 0 false; PEnd 0 true] =
+  let hostile := mkpeerf (Some (mkaddr Http HOther)) true (Some (mkaddr Http HOther)) (Some (mkaddr Http HIp)) HOther
+                         (Some (mkaddr Http HIp)) in
+  prun pc [] [PStart; PSubscribe hostile (mkaddr Http HIp) (Some (mkaddr Http HIp)); PNotify 0 false; PEnd 0 true] =
     [Wrap PServer true; Adv KXaddr RP (mkaddr Https HAlt); Adv KBaseUrl RP (mkaddr Https HIp);
      Adv KSubMgr RP (mkaddr Https HIp);
      Create RP (Some PClient) HIp; Conn RP true (Some PClient); Attempt RP true false HsSslError;
